@@ -8,21 +8,6 @@
 (* report: judged by "error or identical content" only).                    *)
 EXTENDS XzFormat, Json
 
-Blk(csize, usize, withC, withU, dict, maxDist) ==
-  LET cf == IF withC THEN csize ELSE -1
-      uf == IF withU THEN usize ELSE -1
-  IN [sizeByte |-> (BlockHeaderLen(cf, uf) \div 4) - 1, resv |-> 0, nfilters |-> 1,
-      csizeF |-> cf, usizeF |-> uf, filterId |-> 33, propLen |-> 1, dictCode |-> dict,
-      hpadZero |-> TRUE, hcrcOk |-> TRUE, csize |-> csize, usize |-> usize,
-      padLen |-> PadLen(csize), padZero |-> TRUE, checkOk |-> TRUE, l2Ok |-> TRUE, maxDist |-> maxDist]
-
-Strm(check, blocks) ==
-  LET recs == [i \in 1..Len(blocks) |-> [unpadded |-> Unpadded(blocks[i], check), usize |-> blocks[i].usize]]
-  IN [magicOk |-> TRUE, hflag0 |-> 0, check |-> check, hcrcOk |-> TRUE, blocks |-> blocks,
-      indicator |-> 0, count |-> Len(blocks), recs |-> recs,
-      ipadLen |-> PadLen(IndexBodyLen(Len(blocks), recs)), ipadZero |-> TRUE, icrcOk |-> TRUE,
-      backward |-> IndexSize(Len(blocks), recs), fflag0 |-> 0, fcheck |-> check, fcrcOk |-> TRUE, fmagicOk |-> TRUE]
-
 (* Base layouts: with and without size fields, each check type, 1-3 blocks. *)
 Bases == [ plain2   |-> Strm(1, <<Blk(30, 100, FALSE, FALSE, 0, 50), Blk(17, 5, FALSE, FALSE, 0, 3)>>),
            sized2   |-> Strm(4, <<Blk(30, 100, TRUE, TRUE, 2, 5000), Blk(200, 129, TRUE, TRUE, 2, 40)>>),
